@@ -134,3 +134,8 @@ Proof.
     assert (Hnn : 0 <= cos pt * Rabs (sin (ls - lt))) by (apply Rmult_le_pos; [assumption|apply Rabs_pos]).
     nra.
 Qed.
+
+Lemma asin_lt_of_sin x b : -1 <= x <= 1 -> - (PI / 2) <= b <= PI / 2 -> x < sin b -> asin x < b.
+Proof.
+  intros Hx Hb H. pose proof (asin_bound x). apply sin_increasing_0; try lra. rewrite sin_asin by lra. exact H.
+Qed.
